@@ -76,6 +76,9 @@ class Case:
         self.colls = {}
         self.nfile = 0
         self.open = []
+        self.route = 0          # per-case counter the model does not see
+        self.listed = {}        # handle -> keys listed by an earlier `sigs` (re-verified later)
+        self.kind = {}
 
     def path(self, suffix):
         self.nfile += 1
@@ -181,16 +184,137 @@ def mk_coll(cs, kind, sigs, extra):
     return None
 
 
+from sourmash.index import select_signature  # noqa: E402
+from sourmash.index.sqlite_index import SqliteCollectionManifest  # noqa: E402
+from sourmash.picklist import PickStyle  # noqa: E402
+from sourmash.search import make_jaccard_search_query  # noqa: E402
+from sourmash.signature import load_signatures_from_json  # noqa: E402
+import io, json as _json  # noqa: E402
+
+INPLACE_TYPES = ()
+
+
+def keyset(sigs):
+    return sorted(f"{s.md5sum()}:{hx(s.name)}" for s in sigs)
+
+
+def view_checks(x, sigs):
+    """several ways of reading the same collection must agree (appended to the observation as ` !what`)"""
+    bad = []
+    n = len(sigs)
+    try:
+        again = keyset(x.signatures())
+        if again != keyset(sigs):
+            bad.append("twice")
+    except Exception as e:  # noqa: BLE001
+        bad.append("twice:" + type(e).__name__)
+    try:
+        wl = list(x.signatures_with_location())
+        if keyset(ss for ss, _ in wl) != keyset(sigs):
+            bad.append("withloc")
+    except NotImplementedError:
+        pass
+    except Exception as e:  # noqa: BLE001
+        bad.append("withloc:" + type(e).__name__)
+    try:
+        ln = len(x)
+        if ln != n:
+            bad.append(f"len={ln}")
+    except (NotImplementedError, TypeError):
+        pass
+    except Exception as e:  # noqa: BLE001
+        bad.append("len:" + type(e).__name__)
+    try:
+        if bool(x) != (n > 0):
+            bad.append(f"bool={int(bool(x))}")
+    except (NotImplementedError, TypeError):
+        pass
+    except Exception as e:  # noqa: BLE001
+        bad.append("bool:" + type(e).__name__)
+    mf = getattr(x, "manifest", None)
+    if mf is not None and type(x).__name__ not in ("SBT", "LCA_Database"):
+        try:
+            rows = sorted(f"{r['md5']}:{hx(r['name'])}" for r in mf.rows)
+            if rows != keyset(sigs):
+                bad.append("manifest")
+        except Exception as e:  # noqa: BLE001
+            bad.append("manifest:" + type(e).__name__)
+    return bad
+
+
+def row_vs_signature(parent_sigs, kw):
+    """`CollectionManifest._select` and the SQL of `SqliteCollectionManifest` must agree, row for signature, with
+    `select_signature` on every signature of the collection the select is applied to"""
+    bad = []
+    try:
+        ref = [bool(select_signature(ss, **kw)) for ss in parent_sigs]
+    except ValueError:
+        return bad                     # the reference refuses (containment without scaled): nothing to compare
+    rows = [CollectionManifest.make_manifest_row(ss, f"loc{i}", include_signature=False) for i, ss in enumerate(parent_sigs)]
+    try:
+        got = {r["internal_location"] for r in CollectionManifest(rows)._select(**kw)}
+        if [f"loc{i}" in got for i in range(len(rows))] != ref:
+            bad.append("rowsig")
+    except Exception as e:  # noqa: BLE001
+        bad.append("rowsig:" + type(e).__name__)
+    try:
+        smf = SqliteCollectionManifest.load_from_manifest(CollectionManifest(rows))
+        got = {r["internal_location"] for r in smf.select_to_manifest(**kw).rows}
+        if [f"loc{i}" in got for i in range(len(rows))] != ref:
+            bad.append("sqlsig")
+        smf.conn.close()
+    except Exception as e:  # noqa: BLE001
+        bad.append("sqlsig:" + type(e).__name__)
+    return bad
+
+
 META = ("manifest", "gather", "prefetch", "search")
 SIMPLE = ("md5", "md5prefix8", "md5short", "name", "ident", "identprefix")
 
 
-def load_picklist(path, coltype, style, column=""):
-    pl = SignaturePicklist.from_picklist_args(f"{path}:{column}:{coltype}:{'include' if style == 'inc' else 'exclude'}")
-    pl.load(allow_empty=True)
+def load_picklist(path, coltype, style, column="", route=0):
+    """four spellings that must give the same picklist: the argument string with / without an explicit `:include`,
+    the constructor + load(), and init()/add() with the values the loader would have produced"""
+    ps = PickStyle.INCLUDE if style == "inc" else PickStyle.EXCLUDE
+    route %= 4
+    if route == 1 and style == "inc":
+        pl = SignaturePicklist.from_picklist_args(f"{path}:{column}:{coltype}")          # default pickstyle
+        pl.load(allow_empty=True)
+    elif route == 2:
+        pl = SignaturePicklist(coltype, pickfile=path, column_name=column or None, pickstyle=ps)
+        pl.load(allow_empty=True)
+    elif route == 3:
+        ref = SignaturePicklist.from_picklist_args(f"{path}:{column}:{coltype}:{'include' if style == 'inc' else 'exclude'}")
+        ref.load(allow_empty=True)
+        vals = sorted(ref.pickset or [], key=str)
+        pl = SignaturePicklist(coltype, pickstyle=ps)
+        pl.init(vals[:1])
+        for v in vals[1:]:
+            pl.add(v)
+    else:
+        pl = SignaturePicklist.from_picklist_args(f"{path}:{column}:{coltype}:{'include' if style == 'inc' else 'exclude'}")
+        pl.load(allow_empty=True)
     if pl.pickset is None:
         pl.pickset = set()
     return pl
+
+
+def do_search(x, qs, route):
+    """routes that all mean 'shares a hash with the query' at threshold 0"""
+    route %= 4
+    scaled = bool(qs.minhash.scaled)
+    if route == 1 and scaled:
+        return [r.signature for r in x.search(qs, threshold=0, do_containment=True)]
+    if route == 2 and scaled:
+        try:
+            return [r.signature for r in x.prefetch(qs, 0)]
+        except ValueError as e:
+            if "no signatures to search" in str(e):
+                return []
+            raise
+    if route == 3:
+        return [r.signature for r in x.find(make_jaccard_search_query(threshold=0.0), qs)]
+    return [r.signature for r in x.search(qs, threshold=0)]
 
 
 def main():
@@ -252,8 +376,17 @@ def main():
                         for v in a[3:]:
                             wr.writerow([unhex(v), "z"])
                         column = "col"
-                cs.pls[p] = load_picklist(path, ct, sty, column)
+                cs.route += 1
+                cs.pls[p] = load_picklist(path, ct, sty, column, cs.route)
                 res = show_pickset(cs.pls[p])
+            elif op == "plarg" and len(a) == 1:
+                arg = unhex(a[0])
+                try:
+                    pl = SignaturePicklist.from_picklist_args(arg)
+                    res = (f"ok {pl.coltype} {'exc' if pl.pickstyle == PickStyle.EXCLUDE else 'inc'} "
+                           f"{hx(pl.orig_colname or '')} {hx(pl.pickfile or '')}")
+                except Exception as e:  # noqa: BLE001
+                    res = "err " + exc_name(e)
             elif op == "plfrom" and len(a) == 5:
                 p, ct, sty, c, q = int(a[0]), a[1], a[2], int(a[3]), int(a[4])
                 if sty not in ("inc", "exc") or ct not in META:
@@ -300,7 +433,7 @@ def main():
                     if k == "k":
                         kw["ksize"] = None if v == "None" else int(v)
                     elif k == "m":
-                        if v not in ("None", "DNA", "protein", "dayhoff", "hp"):
+                        if v not in ("None", "DNA", "protein", "dayhoff", "hp", "dna", "Protein"):
                             raise KeyError
                         kw["moltype"] = None if v == "None" else v
                     elif k == "s":
@@ -315,10 +448,35 @@ def main():
                         kw["picklist"] = cs.pls[int(v)]
                     else:
                         raise KeyError
+                flags = []
+                if "moltype" not in kw or kw["moltype"] in (None, "DNA", "protein", "dayhoff", "hp"):
+                    try:
+                        parent = list(x.signatures())
+                    except Exception:  # noqa: BLE001
+                        parent = None
+                    if parent is not None:
+                        flags = row_vs_signature(parent, kw)
+                        if "picklist" in kw:
+                            # `picklist.filter(iterable)` is `ss in picklist` spelt on the picklist
+                            pl_ = kw["picklist"]
+                            if keyset(pl_.filter(parent)) != keyset(ss for ss in parent if ss in pl_):
+                                flags.append("plfilter")
                 try:
-                    y = x.select(**kw)
+                    cs.route += 1
+                    y = None
+                    if type(x) is LinearIndex and set(kw) <= {"ksize", "moltype"} and cs.route % 3 == 0 \
+                            and all(v is not None for v in kw.values()) and kw.get("moltype", "DNA") in ("DNA", "protein", "dayhoff", "hp") \
+                            and all(ss.minhash.moltype == "DNA" for ss in x.signatures()):
+                        # (DNA members only: for protein/dayhoff/hp the loader's ksize means the stored 3k, known finding C09.1)
+                        # another route to the same selection: the loader's own ksize / moltype selector (native code)
+                        buf = io.StringIO()
+                        save_signatures_to_json(list(x.signatures()), buf)
+                        y = LinearIndex(load_signatures_from_json(buf.getvalue(), ksize=kw.get("ksize"),
+                                                                  select_moltype=kw.get("moltype")))
+                    if y is None:
+                        y = x.select(**kw)
                     cs.colls[r] = y
-                    res = "ok"
+                    res = "ok" + "".join(" !" + f for f in flags)
                 except (KeyError, IndexError):
                     raise
                 except BaseException as e:
@@ -326,9 +484,33 @@ def main():
                         raise
                     res = "err " + exc_name(e)
             elif op == "sigs" and len(a) == 1:
-                x = cs.colls[int(a[0])]
+                h = int(a[0])
+                x = cs.colls[h]
                 try:
-                    res = show_sigs(list(x.signatures()))
+                    cs.route += 1
+                    if cs.route % 2:
+                        sl = list(x.signatures())
+                    else:
+                        try:
+                            sl = [ss for ss, _ in x.signatures_with_location()]
+                        except NotImplementedError:
+                            sl = list(x.signatures())
+                    flags = view_checks(x, sl)
+                    # histories: every collection listed earlier in this case must still list the same
+                    inplace = type(x).__name__ in ("SBT", "LCA_Database")
+                    for h2, (obj, keys) in list(cs.listed.items()):
+                        if type(obj).__name__ in ("SBT", "LCA_Database"):
+                            continue
+                        try:
+                            if keyset(obj.signatures()) != keys:
+                                flags.append(f"history{h2}")
+                        except Exception as e:  # noqa: BLE001
+                            flags.append(f"history{h2}:{type(e).__name__}")
+                    if not inplace:
+                        cs.listed[h] = (x, keyset(sl))
+                        if len(cs.listed) > 6:
+                            cs.listed.pop(next(iter(cs.listed)))
+                    res = show_sigs(sl) + "".join(" !" + f for f in flags)
                 except Exception as e:
                     if os.environ.get("C12_DEBUG"):
                         import traceback
@@ -338,7 +520,23 @@ def main():
                 x = cs.colls[int(a[0])]
                 qs = cs.sigs[int(a[1])]
                 try:
-                    res = show_sigs([r.signature for r in x.search(qs, threshold=0)])
+                    cs.route += 1
+                    first = do_search(x, qs, cs.route)
+                    flags = []
+                    # the same question asked another way, and once more
+                    second = do_search(x, qs, cs.route + 1)
+                    if keyset(first) != keyset(second):
+                        flags.append("routes")
+                    if qs.minhash.scaled and first is not None:
+                        try:
+                            best = x.best_containment(qs, threshold_bp=0)
+                        except ValueError:
+                            best = None
+                        if (best is None) != (not first) and type(x).__name__ != "LazyLinearIndex":
+                            flags.append("best")
+                        elif best is not None and f"{best.signature.md5sum()}:{hx(best.signature.name)}" not in keyset(first):
+                            flags.append("best")
+                    res = show_sigs(first) + "".join(" !" + f for f in flags)
                 except Exception as e:
                     if os.environ.get("C12_DEBUG"):
                         import traceback
